@@ -18,7 +18,7 @@ use crate::props::c10::{digits, rank};
 use crate::runner::{CheckResult, Env, Job, Outcome, PropJob};
 use crate::util::{pack_top, rc, to_ascii, Seq};
 
-pub const RULE: &str = "case = two operation histories (0..40 ops each) over one k-mer type: extend_left/right(b), rc, set_mut, set_slice_mut(pos,n,packed word with arbitrary garbage in the unused low bits), min_rc, min_rc_flip, re-seed via from_bytes / from_ascii / from_u64(rank), get_kmer out of a DnaString / Lmer / DnaStringSlice holding the model string at an offset. After EVERY step the k-mer must be ==, cmp-Equal and hash-equal (std DefaultHasher and a byte-recording hasher) to the k-mers built from the model string by three independent routes (from_bytes, from_ascii, base-by-base extend_right from empty); the two histories' k-mers compare exactly as their strings do; and sort / dedup / binary_search / consecutive grouping / HashSet / BoomHashMap lookups over all intermediate k-mers agree with the same operations on the strings. Non-trivial = a history has >= 3 ops of >= 2 kinds and the type is partial-width or the history changes the value.";
+pub const RULE: &str = "case = two operation histories (0..40 ops each) over one k-mer type: extend_left/right(b), rc, set_mut / set, set_slice_mut / set_slice (pos,n,packed word with arbitrary garbage in the unused low bits), min_rc, min_rc_flip, re-seed via from_bytes / from_ascii / from_u64(rank), get_kmer out of a DnaString / Lmer / DnaStringSlice holding the model string at an offset. After EVERY step the k-mer must be ==, cmp-Equal and hash-equal (std DefaultHasher and a byte-recording hasher) to the k-mers built from the model string by three independent routes (from_bytes, from_ascii, base-by-base extend_right from empty); the two histories' k-mers compare exactly as their strings do; and sort / dedup / binary_search / consecutive grouping / HashSet / BoomHashMap lookups over all intermediate k-mers agree with the same operations on the strings. Non-trivial = a history has >= 3 ops of >= 2 kinds and the type is partial-width or the history changes the value.";
 pub const TECHNIQUE: &str = "seeded proptest over stateful operation histories (vec of ops + interpreter) against a Vec<u8> model; multi-route Eq/Ord/Hash agreement";
 
 #[derive(Debug, Clone, Serialize, Deserialize)]
